@@ -63,6 +63,22 @@ def run(ctx, config):
     r.inst("check-after-dispatch", {"check_loop": "%s:%d" % (f.file, hc.term["loc"][0])})
     if not f.dominates(disp.bid, hc.id) or (disp.bid == hc.id):
         r.bad("K3:%s:check-before-wait" % f.name, "%s:%d" % (f.file, hc.term["loc"][0]), f.name, "check watchers are not dominated by the dispatch call")
+    # once the wait has returned successfully, the iteration cannot be left (exit, or next prepare) without the check traversal
+    resv = None
+    for nx in f.blocks[disp.bid].elems[disp.idx + 1:disp.idx + 2]:
+        if nx.e[0] == "asg" and eq(strip(nx.e[3]), disp.e):
+            resv = strip(nx.e[2])
+    cut = set()
+    for b in f.branch_blocks():
+        c = strip(b.term["cond"])
+        if resv is not None and is_e(c, "bin") and c[1] == "==" and eq(c[2], resv) and is_e(strip(c[3]), "int") and strip(c[3])[1] == -1:
+            cut |= set((b.id, s_) for s_, l in b.succ if l == "T")
+    reach = f.reach_blocks(disp.bid, avoid_blocks={hc.id}, avoid_edges=cut)
+    skipped = (f.exit in reach) or (hp.id in reach)
+    r.inst("check-not-skippable", {"dispatch": disp.where(), "error_edges_cut": len(cut), "iteration_can_end_without_check": skipped})
+    if skipped:
+        r.bad("K3:%s:check-skipped-after-wait" % f.name, disp.where(), f.name,
+              "after a successful wait a path leaves the iteration (loop exit or next prepare) without running the check watchers")
     for u in upd:
         if f.dominates(disp.bid, u.bid):
             r.inst(("update", u.n), {"site": u.where(), "before_check": f.dominates(u.bid, hc.id)})
